@@ -151,6 +151,87 @@ def r1_affine_invariance(ctx):
               "clip_approach returns a view of the caller's array")
 
 
+_SIZE = 10
+_CASES = [float("nan"), -1, 0, 5, _SIZE - 1, _SIZE, _SIZE + 1]
+_WANT_NAN_ONLY = [True] + [False] * 6
+_WANT_RANGE = [True, True, False, False, False, True, True]
+
+
+def _fallback_table(stmt):
+    """for the statement that installs the centre fallback: the atoms of its
+    path condition that mention the index, the unrelated ones, and the
+    truth table of "the fallback runs" over the abstract index values
+    NaN, -1, 0, 5, size-1, size, size+1 (the condition only compares the
+    index with 0 and the size, so these orderings are exhaustive)"""
+    var = norm(stmt.targets[0])
+    conds = conditions_at(stmt)
+    SIZE = _SIZE
+    CASES = _CASES
+
+    def ev(e, x):
+        """value of a test over the index `var` = x (None: not understood)"""
+        if isinstance(e, ast.BoolOp):
+            vals = [ev(v, x) for v in e.values]
+            if any(v is None for v in vals):
+                return None
+            return all(vals) if isinstance(e.op, ast.And) else any(vals)
+        if isinstance(e, ast.UnaryOp) and isinstance(e.op, ast.Not):
+            v = ev(e.operand, x)
+            return None if v is None else (not v)
+        if isinstance(e, ast.Call) and call_name(e) in (
+                "np.isnan", "numpy.isnan", "math.isnan") and len(
+                e.args) == 1 and norm(e.args[0]) == var:
+            return x != x
+        if isinstance(e, ast.Compare):
+            def num(t):
+                tx = norm(t)
+                if tx == var:
+                    return x
+                if tx in ("force.size", "len(force)", "force.shape[0]"):
+                    return SIZE
+                if tx in ("force.size - 1", "len(force) - 1"):
+                    return SIZE - 1
+                if isinstance(t, ast.Constant) and isinstance(
+                        t.value, (int, float)) and not isinstance(
+                        t.value, bool):
+                    return t.value
+                if isinstance(t, ast.UnaryOp) and isinstance(
+                        t.op, ast.USub) and isinstance(
+                        t.operand, ast.Constant):
+                    return -t.operand.value
+                return None
+            vals = [num(e.left)] + [num(c) for c in e.comparators]
+            if any(v is None for v in vals):
+                return None
+            res = True
+            for op, l, r_ in zip(e.ops, vals, vals[1:]):
+                f = {ast.Lt: l < r_, ast.LtE: l <= r_, ast.Gt: l > r_,
+                     ast.GtE: l >= r_, ast.Eq: l == r_,
+                     ast.NotEq: l != r_}.get(type(op))
+                if f is None:
+                    return None
+                res = res and f
+            return res
+        return None
+
+    related = [a for a in conds if var in {
+        n.id for n in ast.walk(a.node) if isinstance(n, ast.Name)}]
+    others = [a for a in conds if a not in related and not a.expanded
+              and not from_early_exit(a, stmt)]
+    table = []
+    for x in CASES:
+        vals = [ev(a.node, x) for a in related]
+        if any(v is None for v in vals):
+            raise Undecided("compute_poc: fallback condition not understood: "
+                            + "; ".join(repr(a) for a in related))
+        table.append(all(v == a.pol for v, a in zip(vals, related)))
+    return var, related, others, table
+
+
+def _range_fallback(fn, stmt):
+    return _fallback_table(stmt)[3] == _WANT_RANGE
+
+
 def r2_nan_fallback(ctx):
     pm = ctx.repo.mod("poc")
     fn = pm.func("compute_poc")
@@ -166,34 +247,25 @@ def r2_nan_fallback(ctx):
     r = repl[0]
     var = norm(r.ast.targets[0])
     conds = conditions_at(r.ast)
-    def nan_or_outside(a):
-        """isnan(var), or isnan(var) or <var outside the data>"""
-        if a.text in (f"np.isnan({var})", f"numpy.isnan({var})"):
-            return True
-        nd = a.node
-        if isinstance(nd, ast.BoolOp) and isinstance(nd.op, ast.Or):
-            texts = [norm(v) for v in nd.values]
-            if not any(t in (f"np.isnan({var})", f"numpy.isnan({var})")
-                       for t in texts):
-                return False
-            rest = [v for v in nd.values if norm(v) not in (
-                f"np.isnan({var})", f"numpy.isnan({var})")]
-            return all(var in norm(v) and ("0" in norm(v)
-                                           or "size" in norm(v))
-                       for v in rest)
-        return False
-    nan_atoms = [a for a in conds if a.pol and nan_or_outside(a)]
-    others = [a for a in conds if a not in nan_atoms
-              and not from_early_exit(a, r.ast)]
-    ctx.check(bool(nan_atoms) and not others, r.ast,
+    var, related, others, table = _fallback_table(r.ast)
+    CASES = _CASES
+    want_nan_only = [True] + [False] * 6
+    want_range = [True, True, False, False, False, True, True]
+    nan_atoms = related if table in (want_nan_only, want_range) else []
+    ctx.check(bool(related) and table in (want_nan_only, want_range)
+              and not others, r.ast,
               f"{var} replaced by the centre iff NaN",
               "the centre fallback is not applied exactly when the "
-              "estimator returned NaN")
+              "estimator returned NaN"
+              + (f" (replacement for index in {[c for c, t in zip(CASES, table) if t]} of a 10-sample curve)" if related else ""))
+    range_checked = table == want_range
     ctx.check(norm(r.ast.value) == "force.size // 2", r.ast,
               f"fallback value {norm(r.ast.value)}",
               "the fallback is not the middle of the (clipped) data")
+    enclosing = [p.test for p in _parents_if(r.ast)]
     tests = [n for n in cfg.nodes if n.kind == "test"
-             and f"np.isnan({var})" in norm(n.ast).replace("numpy.", "np.")]
+             and (f"isnan({var})" in norm(n.ast)
+                  or any(n.ast is t for t in enclosing))]
     for rt in rets:
         ok = tests and any(cfg.dominates(t.id, rt.id) for t in tests)
         ctx.check(bool(ok), rt.ast, f"{norm(rt.ast)} after the NaN test",
@@ -451,6 +523,11 @@ def r5_index_range(ctx):
             if isinstance(st, ast.Assign) and "size // 2" in norm(st.value)]
     global_ok = False
     if repl:
+        try:
+            global_ok = _range_fallback(cp_fn, repl[0])
+        except Undecided:
+            global_ok = False
+    if repl and not global_ok:
         var = norm(repl[0].targets[0])
         tests = [p.test for p in _parents_if(repl[0])]
         low = high = False
